@@ -102,7 +102,7 @@ func c19Meaning(body string) (toks []string, must []string, doctype string) {
 	nodes := htmlcmp.Parse(body)
 	var text strings.Builder
 	flush := func() {
-		t := strings.Join(strings.Fields(text.String()), "")
+		t := strings.Join(strings.FieldsFunc(text.String(), htmlcmp.IsHTMLSpace), "")
 		if t != "" {
 			toks = append(toks, "T:"+t)
 		}
@@ -122,7 +122,11 @@ func c19Meaning(body string) (toks []string, must []string, doctype string) {
 			flush()
 			var attrs []string
 			for _, a := range n.Attr {
-				attrs = append(attrs, a.Key+"="+strings.Join(strings.Fields(a.Val), " "))
+				key := a.Key
+				if a.Namespace != "" {
+					key = a.Namespace + ":" + key // xlink:href and href are different attributes
+				}
+				attrs = append(attrs, key+"="+strings.Join(strings.FieldsFunc(a.Val, htmlcmp.IsHTMLSpace), " "))
 			}
 			sort.Strings(attrs)
 			toks = append(toks, "<"+n.Data+" "+strings.Join(attrs, "|")+">")
@@ -148,12 +152,13 @@ func c19Meaning(body string) (toks []string, must []string, doctype string) {
 	collect = func(n *html.Node) {
 		if n.Type == html.TextNode {
 			for _, m := range mustacheRe.FindAllString(n.Data, -1) {
-				must = append(must, strings.Join(strings.Fields(m), ""))
+				must = append(must, c19NormMustache(m))
 			}
 		}
 		for _, a := range n.Attr {
 			for _, m := range mustacheRe.FindAllString(a.Val, -1) {
-				must = append(must, strings.Join(strings.Fields(m), ""))
+				// (the property allows whitespace inside attribute values to be collapsed)
+				must = append(must, c19NormMustache(strings.Join(strings.FieldsFunc(m, htmlcmp.IsHTMLSpace), " ")))
 			}
 		}
 		for c := n.FirstChild; c != nil; c = c.NextSibling {
@@ -165,6 +170,29 @@ func c19Meaning(body string) (toks []string, must []string, doctype string) {
 	}
 	sort.Strings(must)
 	return
+}
+
+// c19NormMustache removes whitespace outside string literals; inside them every character counts.
+func c19NormMustache(m string) string {
+	var b strings.Builder
+	quote := byte(0)
+	for i := 0; i < len(m); i++ {
+		ch := m[i]
+		switch {
+		case quote != 0:
+			b.WriteByte(ch)
+			if ch == quote {
+				quote = 0
+			}
+		case ch == '"' || ch == '\'':
+			quote = ch
+			b.WriteByte(ch)
+		case ch == ' ' || ch == '\t' || ch == '\n' || ch == '\r' || ch == '\f':
+		default:
+			b.WriteByte(ch)
+		}
+	}
+	return b.String()
 }
 
 func c19FirstDiff(a, b []string) string {
